@@ -753,14 +753,15 @@ rf64_write_header (SF_PRIVATE *psf, int calc_length)
 	else
 		psf_binheader_writef (psf, "m4", BHWm (data_MARKER), BHW4 (0xffffffff)) ;
 
-	psf_fwrite (psf->header.ptr, psf->header.indx, 1, psf) ;
-	if (psf->error)
-		return psf->error ;
-
+	/* The header must end where the audio data starts : never write a header of another length over existing data. */
 	if (has_data && psf->dataoffset != psf->header.indx)
 	{	psf_log_printf (psf, "Oooops : has_data && psf->dataoffset != psf->header.indx\n") ;
 		return psf->error = SFE_INTERNAL ;
 		} ;
+
+	psf_fwrite (psf->header.ptr, psf->header.indx, 1, psf) ;
+	if (psf->error)
+		return psf->error ;
 
 	psf->dataoffset = psf->header.indx ;
 
